@@ -1127,7 +1127,12 @@ class NestedPipeFunc(PipeFunc):
             "resources": self.resources,
         }
         kwargs.update(update)
-        return NestedPipeFunc(**kwargs)  # type: ignore[arg-type]
+        new = NestedPipeFunc(**kwargs)  # type: ignore[arg-type]
+        # `defaults` and `bound` are no constructor arguments; keep what was set
+        # with `update_defaults` and `update_bound`
+        new._defaults = self._defaults.copy()
+        new._bound = self._bound.copy()
+        return new
 
     def _combine_mapspecs(self) -> MapSpec | None:
         mapspecs = [f.mapspec for f in self.pipeline.functions]
